@@ -71,7 +71,8 @@ package time
 //@ axiom fend_def(s string, f int, e int): (f <= e && e <= len(s) && (forall k int :: f <= k && k < e ==> isd(s, k)) && (e == len(s) || !isd(s, e))) ==> fend(s, f) == e
 
 // value of the first m (<= 9) fraction digits s[f..f+m), and the scale the parser keeps beside it
-//@ spec dv(s string, f int, m int) int = m == 0 ? (0) : m == 1 ? (dg(s, f)) : m == 2 ? ((dg(s, f)) * 10 + dg(s, f+1)) : m == 3 ? (((dg(s, f)) * 10 + dg(s, f+1)) * 10 + dg(s, f+2)) : m == 4 ? ((((dg(s, f)) * 10 + dg(s, f+1)) * 10 + dg(s, f+2)) * 10 + dg(s, f+3)) : m == 5 ? (((((dg(s, f)) * 10 + dg(s, f+1)) * 10 + dg(s, f+2)) * 10 + dg(s, f+3)) * 10 + dg(s, f+4)) : m == 6 ? ((((((dg(s, f)) * 10 + dg(s, f+1)) * 10 + dg(s, f+2)) * 10 + dg(s, f+3)) * 10 + dg(s, f+4)) * 10 + dg(s, f+5)) : m == 7 ? (((((((dg(s, f)) * 10 + dg(s, f+1)) * 10 + dg(s, f+2)) * 10 + dg(s, f+3)) * 10 + dg(s, f+4)) * 10 + dg(s, f+5)) * 10 + dg(s, f+6)) : m == 8 ? ((((((((dg(s, f)) * 10 + dg(s, f+1)) * 10 + dg(s, f+2)) * 10 + dg(s, f+3)) * 10 + dg(s, f+4)) * 10 + dg(s, f+5)) * 10 + dg(s, f+6)) * 10 + dg(s, f+7)) : (((((((((dg(s, f)) * 10 + dg(s, f+1)) * 10 + dg(s, f+2)) * 10 + dg(s, f+3)) * 10 + dg(s, f+4)) * 10 + dg(s, f+5)) * 10 + dg(s, f+6)) * 10 + dg(s, f+7)) * 10 + dg(s, f+8))
+//@ ghost dv(s string, f int, m int) int
+//@ axiom dv_unfold(s string, f int, m int): dv(s, f, 0) == 0 && (m >= 0 ==> dv(s, f, m+1) == dv(s, f, m) * 10 + dg(s, f+m))
 //@ spec p10(k int) int = k == 0 ? 1 : k == 1 ? 10 : k == 2 ? 100 : k == 3 ? 1000 : k == 4 ? 10000 : k == 5 ? 100000 : k == 6 ? 1000000 : k == 7 ? 10000000 : k == 8 ? 100000000 : 1000000000
 //@ spec min9(d int) int = d < 9 ? d : 9
 //@ global errCannotParseNumber != nil
@@ -121,14 +122,6 @@ package time
 //@   uses umul_exactl(-1, tzh*60*60 + tzm*60)
 //@   loop 1 invariant n >= 21 && 0 <= iterpos() && iterpos() <= n - 20 && (forall k int :: 20 <= k && k < 20 + iterpos() ==> isd(in, k))
 //@   loop 1 invariant i == (iterpos() == 0 ? 0 : iterpos() - 1)
-//@   loop 1 invariant iterpos() == 0 ==> mult == 1000000000 && val == dv(in, 20, 0)
-//@   loop 1 invariant iterpos() == 1 ==> mult == 100000000 && val == dv(in, 20, 1)
-//@   loop 1 invariant iterpos() == 2 ==> mult == 10000000 && val == dv(in, 20, 2)
-//@   loop 1 invariant iterpos() == 3 ==> mult == 1000000 && val == dv(in, 20, 3)
-//@   loop 1 invariant iterpos() == 4 ==> mult == 100000 && val == dv(in, 20, 4)
-//@   loop 1 invariant iterpos() == 5 ==> mult == 10000 && val == dv(in, 20, 5)
-//@   loop 1 invariant iterpos() == 6 ==> mult == 1000 && val == dv(in, 20, 6)
-//@   loop 1 invariant iterpos() == 7 ==> mult == 100 && val == dv(in, 20, 7)
-//@   loop 1 invariant iterpos() == 8 ==> mult == 10 && val == dv(in, 20, 8)
-//@   loop 1 invariant iterpos() >= 9 ==> mult == 1 && val == dv(in, 20, 9)
+//@   loop 1 invariant mult == p10(9 - min9(iterpos())) && val == dv(in, 20, min9(iterpos()))
+//@   loop 1 uses dv_unfold(in, 20, min9(iterpos()))
 //@   loop 1 decreases (n - 20) - iterpos()
